@@ -45,6 +45,11 @@ TraceNext ==
        [] Ev = "res.reset.pre"   -> ulen = A[1] /\ clen = A[2] /\ CReset /\ Step
        [] Ev = "consume.done.post" -> Obs(cpc = "swap"
                                           /\ (IF DrainExact(drains[Len(drains)]) THEN TRUE ELSE Known("CF16c", Len(drains))))
+       \* overlapping consume() calls (two consumer threads): the call returned - the other caller may already be inside
+       [] Ev = "consume.ret.post" -> Obs(TRUE)
+       \* ... at the end: every drain was exact and together they yielded every value pushed (never more than Cap per cycle)
+       [] Ev = "overlap.final"   -> Obs(/\ cpc = "swap" /\ consumes = A[2] /\ ~dirty /\ StrictDrainsExact
+                                        /\ LET S == UNION {Range(drains[i].vals) : i \in DOMAIN drains} IN Cardinality(S) = A[1])
        [] Ev = "final"           -> Obs(TRUE)
        [] OTHER -> FALSE         \* panic / livelock / stuck / unknown site
 
